@@ -104,38 +104,8 @@ def slc2(ctx: Ctx) -> None:
         ctx.R.ok("SLC-2", f"extract_since -> StackSlice(outer={p0})")
     else:
         ctx.R.fail("SLC-2", mod, since, f"extract_since(frame) must be extract(StackSlice(outer=frame))", construct="extract_since mapping")
-    uc = [c for c in ast.walk(until) if isinstance(c, ast.Call) and norm(c.func) == "StackSlice"]
     inner = until.args.args[0].arg
-    if len(uc) != 2:
-        raise AnalysisError("SLC-2: extract_until no longer builds two StackSlices")
-    for c in uc:
-        gs = [norm(g) for g, pol in guards_of(mod, c, until) if pol]
-        k = _kws(c)
-        if any("isinstance(limit, types.FrameType)" == g for g in gs):
-            # frame-valued limit: outer = walked frame
-            ov = k.get("outer")
-            walk = [s for s in ast.walk(until) if isinstance(s, ast.While) and ov and ov in norm(s.test)]
-            okw = False
-            if len(walk) == 1:
-                conj = [norm(x) for x in walk[0].test.values] if isinstance(walk[0].test, ast.BoolOp) and isinstance(walk[0].test.op, ast.And) else []
-                okw = f"{ov} is not limit" in conj and f"{ov} is not None" in conj and [norm(x) for x in walk[0].body] == [f"{ov} = {ov}.f_back"]
-            init = [s for s in ast.walk(until) if isinstance(s, (ast.Assign, ast.AnnAssign)) and norm(s.targets[0] if isinstance(s, ast.Assign) else s.target) == ov
-                    and s.value is not None and norm(s.value) == inner]
-            raises = [s for s in ast.walk(until) if isinstance(s, ast.If) and norm(s.test) == f"{ov} is None" and isinstance(s.body[-1], ast.Raise)]
-            if k == {"outer": ov, "inner": inner} and okw and init and raises:
-                ctx.R.ok("SLC-2", f"extract_until(frame limit) -> StackSlice(outer=<f_back walk from inner to limit>, inner={inner}); raises if limit is not a caller")
-            elif k.get("inner") != inner or set(k) != {"outer", "inner"} or ov == inner:
-                ctx.R.fail("SLC-2", mod, c, f"with a frame-valued limit extract_until must pass StackSlice(outer=<the limit frame found by walking f_back>, inner=inner_frame); it passes {k}",
-                           construct="extract_until frame-limit mapping")
-            elif not raises:
-                ctx.R.fail("SLC-2", mod, c, "extract_until must raise when the frame-valued limit is not an indirect caller of inner_frame", construct="extract_until frame-limit: no raise")
-            else:
-                ctx.R.undecided("SLC-2", "the f_back walk for a frame-valued limit is not in the recognised inline shape")
-        else:
-            if k == {"inner": inner, "limit": "limit"}:
-                ctx.R.ok("SLC-2", f"extract_until(int/None limit) -> StackSlice(inner={inner}, limit=limit)")
-            else:
-                ctx.R.fail("SLC-2", mod, c, "with an integer or absent limit extract_until must pass StackSlice(inner=inner_frame, limit=limit)", construct="extract_until int-limit mapping")
+    _slc2_until(ctx, mod, until, inner)
     # every StackSlice construction in the package names its fields
     n = 0
     for m in ctx.P.analysed_mods():
@@ -145,6 +115,127 @@ def slc2(ctx: Ctx) -> None:
                 if c.args or not set(_kws(c)) <= {"outer", "inner", "limit"}:
                     ctx.R.fail("SLC-2", m, c, "StackSlice must be built with keyword arguments outer/inner/limit (positional use silently swaps anchors)")
     ctx.R.ok("SLC-2", f"{n} StackSlice constructions use field keywords")
+
+
+def _slc2_until(ctx: Ctx, mod: Mod, until: ast.AST, inner: str) -> None:
+    """extract_until as a table over what `limit` is: a frame -> StackSlice(outer=<frame found by walking f_back from inner_frame
+    until it is the limit>, inner=inner_frame), raising if the walk runs out; an int or None -> StackSlice(inner=inner_frame,
+    limit=limit); anything else -> raise.  The f_back walk is decided separately as a step function."""
+    import copy
+    from ..stepper import Stepper, enumerate_table
+    from ..emit import Unsupported
+    body = copy.deepcopy([x for x in until.body if not (isinstance(x, ast.Expr) and isinstance(x.value, ast.Constant))])
+    walks: List[ast.AST] = []
+    F_, I_, N_, W_ = "isinstance(limit, types.FrameType)", "isinstance(limit, int)", "limit is None", "WALKED is None"
+    known = [F_, I_, N_, W_]
+
+    def run(assign):
+        st = Stepper(assign)
+
+        def on_loop(loop, env):
+            if loop not in walks:
+                walks.append(loop)
+            # the variable the loop advances along f_back
+            if any(isinstance(a_, ast.Attribute) and a_.attr == "f_back" for a_ in ast.walk(loop)):
+                # every name the walk assigns is (an alias of) where the walk ended; "ran out" is the atom `WALKED is None`
+                for a_ in ast.walk(loop):
+                    if isinstance(a_, ast.Assign) and len(a_.targets) == 1 and isinstance(a_.targets[0], ast.Name):
+                        env[a_.targets[0].id] = ast.Name(id="WALKED", ctx=ast.Load())
+        st.on_loop = on_loop
+        k, v = st.run(body, {})
+        if k == "return" and v is not None:
+            sl = [c for c in ast.walk(v) if isinstance(c, ast.Call) and norm(c.func) == "StackSlice"]
+            if isinstance(v, ast.Call) and norm(v.func) == "extract" and len(sl) == 1 and not sl[0].args:
+                return ("SLICE", tuple(sorted((k_.arg, norm(k_.value)) for k_ in sl[0].keywords)))
+            return ("RETURN", norm(v)[:60])
+        return (k.upper(), "")
+
+    try:
+        atoms, rows = enumerate_table(run, known)
+    except Unsupported as ex:
+        ctx.R.undecided("SLC-2", f"extract_until is outside the step interpreter: {ex}")
+        return
+    bad = None
+    for assign, out in rows:
+        if assign[N_] and (assign[F_] or assign[I_]):
+            continue  # None is neither a frame nor an int
+        if assign[F_] and assign[I_]:
+            continue
+        if assign[F_]:
+            want = ("RAISE", "") if assign[W_] else ("SLICE", (("inner", inner), ("outer", "WALKED")))
+        elif assign[I_] or assign[N_]:
+            want = ("SLICE", (("inner", inner), ("limit", "limit")))
+        else:
+            want = ("RAISE", "")
+        if out != want and bad is None:
+            bad = (assign, out, want)
+    if bad is None:
+        ctx.R.ok("SLC-2", f"extract_until: frame limit -> StackSlice(outer=<walked frame>, inner={inner}) or raise; int/None -> StackSlice(inner={inner}, limit=limit); else raise",
+                 f"{len(rows)} combinations of {atoms}")
+    else:
+        assign, out, want = bad
+        shown = {k_: v_ for k_, v_ in assign.items() if v_ or k_ not in known}
+        if want[0] == "RAISE" and assign[F_]:
+            ctx.R.fail("SLC-2", mod, until, "extract_until must raise when the frame-valued limit is not an indirect caller of inner_frame", construct="extract_until frame-limit: no raise")
+        elif assign[F_]:
+            ctx.R.fail("SLC-2", mod, until, f"with a frame-valued limit extract_until must pass StackSlice(outer=<the limit frame found by walking f_back>, inner=inner_frame); it gives {out}",
+                       construct="extract_until frame-limit mapping")
+        else:
+            ctx.R.fail("SLC-2", mod, until, f"extract_until, case {shown or 'limit of another type'}: {out} where {want} is required "
+                       "(an integer or absent limit must pass StackSlice(inner=inner_frame, limit=limit); other types must be refused)", construct="extract_until int-limit mapping")
+    # the walk itself: starts at inner_frame, stops at the limit (or None), otherwise steps to f_back
+    if len(walks) != 1:
+        ctx.R.undecided("SLC-2", f"{len(walks)} loops in extract_until (one f_back walk expected)")
+        return
+    loop = walks[0]
+    ov = next((a_.targets[0].id for a_ in ast.walk(loop) if isinstance(a_, ast.Assign) and isinstance(a_.value, ast.Attribute) and a_.value.attr == "f_back" and isinstance(a_.targets[0], ast.Name)), None)
+    if ov is None or not isinstance(loop, ast.While):
+        ctx.R.undecided("SLC-2", "the f_back walk for a frame-valued limit is not a while loop advancing a variable along f_back")
+        return
+    init = [s_ for s_ in ast.walk(ast.Module(body=body, type_ignores=[])) if isinstance(s_, (ast.Assign, ast.AnnAssign)) and norm(s_.targets[0] if isinstance(s_, ast.Assign) else s_.target) == ov
+            and s_.value is not None and not any(s_ is x for x in ast.walk(loop))]
+    if not init or any(norm(s_.value) != inner for s_ in init):
+        ctx.R.fail("SLC-2", mod, loop, f"the walk towards a frame-valued limit must start at {inner} itself (extract_until(f, limit=f) is the one-frame stack [f]); it starts at "
+                   f"`{norm(init[0].value) if init else '?'}`", construct="extract_until walk start")
+    L_, E_, C_ = f"{ov} is limit", f"{ov} is None", f"{ov}.f_back is {inner}"
+
+    def step(assign):
+        st = Stepper(assign)
+        if not st.truth(loop.test):
+            return ("EXIT", ov)
+        env: Dict[str, ast.AST] = {}
+        k, v = st.run(loop.body, env)
+        cur = norm(env[ov]) if ov in env else ov
+        if k in ("fall", "continue"):
+            return ("STEP", cur)
+        if k == "break":
+            return ("EXIT", cur)
+        return (k.upper(), cur)
+
+    try:
+        atoms2, rows2 = enumerate_table(step, [L_, E_, C_])
+    except Unsupported as ex:
+        ctx.R.undecided("SLC-2", f"the f_back walk is outside the step interpreter: {ex}")
+        return
+    badw = None
+    for assign, out in rows2:
+        if assign[L_] and assign[E_]:
+            continue
+        if assign[E_] and assign[C_]:
+            continue
+        if assign[L_] or assign[E_]:
+            want = ("EXIT", ov)
+        elif assign[C_]:
+            want = None  # the cycle guard (PyPy greenlets) may stop here or not
+        else:
+            want = ("STEP", f"{ov}.f_back")
+        if want is not None and out != want and badw is None:
+            badw = (assign, out, want)
+    if badw is None:
+        ctx.R.ok("SLC-2", f"the walk leaves {ov} unchanged when it is the limit or None and otherwise steps to {ov}.f_back", f"{len(rows2)} combinations")
+    else:
+        assign, out, want = badw
+        ctx.R.fail("SLC-2", mod, loop, f"f_back walk of extract_until: with {dict((k_, v_) for k_, v_ in assign.items() if v_)} one step gives {out} where {want} is required", construct="extract_until walk step")
 
 
 def slc3(ctx: Ctx) -> None:
